@@ -20,6 +20,7 @@ ESL_RED_BLACK_DOUBLEKEY * esl_red_black_doublekey_Create(){
   ESL_RED_BLACK_DOUBLEKEY *new_node;
   ESL_ALLOC(new_node, sizeof(ESL_RED_BLACK_DOUBLEKEY));
 
+  new_node->contents = NULL;  // "Leave NULL if you have no contents": Destroy() free()s it
   new_node->parent = NULL;
   new_node->large = NULL;
   new_node->small = NULL;
@@ -75,12 +76,14 @@ ESL_RED_BLACK_DOUBLEKEY * esl_red_black_doublekey_pool_Create(int number){
   // init nodes, forming into linked list by their larger pointers
   int i;
   for(i = 0; i < (number -1); i++){
+    new_node[i].contents = NULL;
     new_node[i].parent = NULL;
     new_node[i].large = &(new_node[i+1]);
     new_node[i].small = NULL;
   }
 
   //special-case the last node in the chain
+  new_node[number-1].contents=NULL;
   new_node[number-1].parent=NULL;
   new_node[number-1].large=NULL;
   new_node[number-1].small=NULL;
